@@ -52,6 +52,14 @@ pub struct MEntry {
     pub central_extra: Option<Vec<u8>>,
     /// (source archive, index) of a raw copy
     pub raw_of: Option<(usize, usize)>,
+    /// options that must be refused when the method is switched to (entries started with extra data switch late)
+    pub opts_bad: Option<Class2>,
+}
+
+#[derive(Clone, Copy, Debug, PartialEq, Eq, Hash)]
+pub enum Class2 {
+    Err,
+    Unspec,
 }
 
 #[derive(Clone, Debug, PartialEq, Eq, Hash)]
@@ -147,10 +155,14 @@ impl Model {
             };
         }
         // starting anything (or finishing) first ends pending extra data implicitly
-        let implicit = if self.in_extra() { self.end_class() } else { Class::MustOk };
         let combine = |a: Class, b: Class| match (a, b) {
             (Class::MustErr, _) | (_, Class::MustErr) => Class::MustErr,
             (Class::Unspecified, _) | (_, Class::Unspecified) => Class::Unspecified,
+            _ => Class::MustOk,
+        };
+        let implicit = match self.mode {
+            ExtraLocal => combine(self.end_class(), self.entries.last().map_or(Class::MustOk, opts_class_of_entry)),
+            ExtraCentral => self.end_class(),
             _ => Class::MustOk,
         };
         match call {
@@ -177,12 +189,12 @@ impl Model {
             Call::StartExtra { .. } => implicit,
             Call::AddDir { .. } | Call::AddSymlink { .. } | Call::RawCopy { .. } => implicit,
             Call::EndLocalStartCentral => match self.mode {
-                ExtraLocal => combine(self.end_class(), self.entries.last().map_or(Class::MustOk, |e| opts_class_of_entry(e))),
+                ExtraLocal => combine(self.end_class(), self.entries.last().map_or(Class::MustOk, opts_class_of_entry)),
                 ExtraCentral => Class::Unspecified,
                 _ => Class::MustErr,
             },
             Call::EndExtra => match self.mode {
-                ExtraLocal => combine(self.end_class(), self.entries.last().map_or(Class::MustOk, |e| opts_class_of_entry(e))),
+                ExtraLocal => combine(self.end_class(), self.entries.last().map_or(Class::MustOk, opts_class_of_entry)),
                 ExtraCentral => self.end_class(),
                 _ => Class::MustErr,
             },
@@ -315,6 +327,11 @@ impl Model {
             local_extra: if known { Some(vec![]) } else { None },
             central_extra: if known { Some(vec![]) } else { None },
             raw_of: None,
+            opts_bad: match opts_class(o, true) {
+                Class::MustErr if kind == 0 => Some(Class2::Err),
+                Class::Unspecified if kind == 0 => Some(Class2::Unspec),
+                _ => None,
+            },
         });
     }
     fn push_raw(&mut self, src: usize, idx: usize, rename: Option<String>, known: bool) {
@@ -332,6 +349,7 @@ impl Model {
             local_extra: None,
             central_extra: None,
             raw_of: Some((src, idx)),
+            opts_bad: None,
         });
     }
 
@@ -410,11 +428,10 @@ impl Model {
 }
 
 fn opts_class_of_entry(e: &MEntry) -> Class {
-    // entries started with extra data switch to their method when the local part ends;
-    // the alphabets only use valid methods there
-    if matches!(e.method, 0 | 8 | 12 | 93) {
-        Class::MustOk
-    } else {
-        Class::MustErr
+    // entries started with extra data switch to their method (and level) when the local part ends
+    match e.opts_bad {
+        Some(Class2::Err) => Class::MustErr,
+        Some(Class2::Unspec) => Class::Unspecified,
+        None => Class::MustOk,
     }
 }
